@@ -98,6 +98,9 @@ pub struct ServerScn {
     /// ‰ of scheduling steps that poll a task that was not woken (legal for any future).
     #[serde(default)]
     pub spurious_permille: u32,
+    /// Clock jumps: at virtual ms `.0` the clock is advanced by `.1` ms at once.
+    #[serde(default)]
+    pub jumps: Vec<(u64, u64)>,
 }
 
 impl ServerScn {
@@ -129,6 +132,8 @@ pub enum SFocus {
     /// Handlers that finish while the response buffer is full and the sink is stalled (their
     /// response send is parked), then cancels / id reuse / expiry hit the parked request.
     Parked,
+    /// only long-horizon runs
+    Long,
 }
 
 fn gen_parked(rng: &mut Rng) -> ServerScn {
@@ -170,6 +175,7 @@ fn gen_parked(rng: &mut Rng) -> ServerScn {
         subscriber: 0,
         long: false,
         spurious_permille: 0,
+        jumps: vec![],
     }
 }
 
@@ -315,7 +321,7 @@ pub fn gen(rng: &mut Rng, focus: SFocus) -> ServerScn {
     } else {
         0
     };
-    let long = focus == SFocus::Extreme && rng.chance(250);
+    let long = (focus == SFocus::Extreme && rng.chance(250)) || focus == SFocus::Long;
     if long {
         // one or two requests with deadlines years ahead whose handlers never finish
         script.truncate(2);
@@ -353,6 +359,7 @@ pub fn gen(rng: &mut Rng, focus: SFocus) -> ServerScn {
         subscriber,
         long,
         spurious_permille: if focus == SFocus::General && subscriber == 0 && rng.chance(120) { 100 } else { 0 },
+        jumps: if focus == SFocus::Deadlines && !long && rng.chance(300) { (0..rng.range(1, 2)).map(|_| (rng.range(0, 20), *rng.pick(&[1u64, 3, 10, 40, 200]))).collect() } else { vec![] },
     }
 }
 
@@ -819,6 +826,21 @@ pub fn run(scn: &ServerScn, tape: Tape, _logging: bool) -> RunOutput {
                     tokio::time::sleep(Duration::from_millis(dur)).await;
                     sim_c.log(EvKind::Fault { kind: "stall_end", arg: 0 });
                     peer_c.set_blocked(false);
+                }));
+            }
+            for (at, delta) in scn.jumps.clone() {
+                let sim_c = sim.clone();
+                chaos.push(sim.spawn("clock_jump", async move {
+                    tokio::time::sleep(Duration::from_millis(at)).await;
+                    // a jump models a stalled process / stepped clock *between* polls; time that
+                    // passes in the middle of another task's poll is not something any oracle
+                    // here accounts for
+                    while sim_c.depth() > 1 {
+                        crate::profiles::server::yield_once().await;
+                    }
+                    sim_c.log(EvKind::Fault { kind: "clock_jump", arg: delta as i64 });
+                    sim_c.count("fault.clock_jump");
+                    tokio::time::advance(Duration::from_millis(delta)).await;
                 }));
             }
             if let Some(at) = scn.drop_stream_at {
